@@ -288,8 +288,8 @@ def ufunc(name, result_sort=Cell, pure=True, mutates_row=None, params=None):
         f = z3.Function('%s/%s' % (name, '_'.join(str(t.sort()) for t in ts)), *[t.sort() for t in ts], result_sort)
         r = f(*ts) if ts else z3.Const(name, result_sort)
         if not pure:
-            it.emit(Ev('Call', target=name, method='__call__', args=tuple(lib.snap(it, a) for a in args), kwargs={},
-                       result=r, objs=tuple(args)))
+            it.emit(Ev('Call', target=name, method='__call__', args=tuple(lib.snap(it, a) for a in args),
+                       kwargs={k: lib.snap(it, v) for k, v in kwargs.items()}, result=r, objs=tuple(args)))
         if mutates_row is not None and isinstance(args[mutates_row], Row):
             fd = z3.Function('%s.dom/%s' % (name, '_'.join(str(t.sort()) for t in ts)), *[t.sort() for t in ts], DomS)
             fv = z3.Function('%s.val/%s' % (name, '_'.join(str(t.sort()) for t in ts)), *[t.sort() for t in ts], ValS)
